@@ -1013,6 +1013,10 @@ class Exec:
             if is_z3(idx):
                 raise OutOfSubset("symbolic index store")
             base[idx] = value
+        elif isinstance(base, OMap):
+            # store into a dict of objects: recorded for specifications; later lookups stay unconstrained
+            # (over-approximation already stated for TObjMap)
+            base.__dict__.setdefault("stores", []).append((idx, value))
         elif isinstance(base, ADict):
             k = lift(idx)
             base.present = z3.Store(base.present, k, z3.BoolVal(True))
